@@ -1,18 +1,152 @@
 //! lfsverif: conformance harness binding the TLA+ specifications in /verif/spec to insim.rs.
 mod abs;
+mod conn;
+mod frames;
+
+use std::{
+    collections::HashMap,
+    io::{BufRead, Write},
+    sync::Arc,
+};
+
+use serde_json::{json, Value};
+
+fn arg_map(args: &[String]) -> HashMap<String, String> {
+    let mut m = HashMap::new();
+    let mut i = 0;
+    while i < args.len() {
+        if let Some(k) = args[i].strip_prefix("--") {
+            let v = args.get(i + 1).cloned().unwrap_or_default();
+            let _ = m.insert(k.to_string(), v);
+            i += 2;
+        } else {
+            i += 1;
+        }
+    }
+    m
+}
+
+/// conn-replay --in behaviours.ndjson [--seed n]
+/// every behaviour is executed on the real connection in both size modes;
+/// prints one JSON line per mismatch and a final summary line.
+fn cmd_conn_replay(a: &HashMap<String, String>) -> i32 {
+    let path = a.get("in").expect("--in");
+    let seed: u64 = a.get("seed").and_then(|s| s.parse().ok()).unwrap_or(1);
+    let only: Option<&String> = a.get("transport");
+    let f = std::fs::File::open(path).expect("open behaviours");
+    let pools: Vec<Arc<frames::Pool>> = vec![Arc::new(frames::Pool::new("C")), Arc::new(frames::Pool::new("U"))];
+    let (mut n, mut ok, mut skipped, mut bad) = (0u64, 0u64, 0u64, 0u64);
+    let mut skip_reasons: HashMap<String, u64> = HashMap::new();
+    let out = std::io::stdout();
+    let mut out = out.lock();
+    for (lineno, line) in std::io::BufReader::new(f).lines().enumerate() {
+        let line = line.unwrap();
+        if line.trim().is_empty() {
+            continue;
+        }
+        let v: Value = serde_json::from_str(&line).expect("behaviour json");
+        let cfg = &v["cfg"];
+        let transport = cfg["transport"].as_str().unwrap_or("stream");
+        if let Some(t) = only {
+            if t != transport {
+                continue;
+            }
+        }
+        if transport != "stream" {
+            continue; // datagram / websocket behaviours are replayed on real sockets (conn-net-replay)
+        }
+        let flavor = cfg["flavor"].as_str().unwrap_or("blocking");
+        let verify = cfg["verify"].as_bool().unwrap_or(false);
+        let steps = conn::parse_steps(&v["steps"]);
+        for pool in pools.iter() {
+            n += 1;
+            let verdict = if flavor == "blocking" {
+                conn::replay_blocking(pool.clone(), verify, steps.clone(), seed + lineno as u64)
+            } else {
+                conn::replay_tokio(pool.clone(), verify, steps.clone(), seed + lineno as u64)
+            };
+            match verdict {
+                conn::ReplayVerdict::Ok => ok += 1,
+                conn::ReplayVerdict::Skipped(m) => {
+                    skipped += 1;
+                    *skip_reasons.entry(m.split(" for frame").next().unwrap_or("").to_string()).or_default() += 1;
+                },
+                conn::ReplayVerdict::Mismatch(m) => {
+                    bad += 1;
+                    let _ = writeln!(
+                        out,
+                        "{}",
+                        json!({"mismatch": m, "line": lineno + 1, "mode": pool.mode, "flavor": flavor, "verify": verify, "behaviour": v})
+                    );
+                },
+            }
+        }
+    }
+    let _ = writeln!(out, "{}", json!({"summary": {"executed": n, "ok": ok, "skipped": skipped, "mismatch": bad, "skip_reasons": skip_reasons}}));
+    0
+}
+
+/// conn-trace --out file --seed n --sessions k --frames m [--flavor blocking|tokio|both] [--writes 1] [--cancels 1]
+fn cmd_conn_trace(a: &HashMap<String, String>) -> i32 {
+    let out = a.get("out").expect("--out");
+    let seed: u64 = a.get("seed").and_then(|s| s.parse().ok()).unwrap_or(1);
+    let sessions: u64 = a.get("sessions").and_then(|s| s.parse().ok()).unwrap_or(4);
+    let frames_n: usize = a.get("frames").and_then(|s| s.parse().ok()).unwrap_or(200);
+    let flavor = a.get("flavor").cloned().unwrap_or_else(|| "both".into());
+    let writes = a.get("writes").map(|s| s == "1").unwrap_or(false);
+    let cancels = a.get("cancels").map(|s| s == "1").unwrap_or(false);
+    let pools: Vec<Arc<frames::Pool>> = vec![Arc::new(frames::Pool::new("C")), Arc::new(frames::Pool::new("U"))];
+    let mut w = std::io::BufWriter::new(std::fs::File::create(out).expect("create trace"));
+    let mut total = 0usize;
+    for s in 0..sessions {
+        let fl = match flavor.as_str() {
+            "both" => {
+                if s % 2 == 0 {
+                    "blocking"
+                } else {
+                    "tokio"
+                }
+            },
+            x => x,
+        };
+        let pool = pools[((s / 2) % 2) as usize].clone();
+        let tc = conn::TraceCfg {
+            flavor: fl.to_string(),
+            mode: pool.mode.clone(),
+            verify: (s / 4) % 2 == 0,
+            frames: frames_n,
+            seed: seed.wrapping_mul(1000).wrapping_add(s),
+            writes,
+            cancels: cancels && fl == "tokio",
+        };
+        let evs = if fl == "blocking" { conn::trace_blocking(pool, &tc) } else { conn::trace_tokio(pool, &tc) };
+        for e in evs {
+            total += 1;
+            let _ = writeln!(w, "{}", e);
+        }
+    }
+    println!("{}", json!({"events": total, "sessions": sessions}));
+    0
+}
 
 fn main() {
+    frames::quiet_panics();
     let args: Vec<String> = std::env::args().collect();
     let cmd = args.get(1).map(|s| s.as_str()).unwrap_or("");
-    match cmd {
+    let a = arg_map(&args[2.min(args.len())..]);
+    let code = match cmd {
         "kinds" => {
             for k in abs::KINDS {
                 println!("{k}");
             }
+            0
         },
+        "conn-replay" => cmd_conn_replay(&a),
+        "conn-trace" => cmd_conn_trace(&a),
         _ => {
             eprintln!("usage: lfsverif <command> ...");
-            std::process::exit(2);
+            2
         },
-    }
+    };
+    std::process::exit(code);
 }
